@@ -190,9 +190,18 @@ func deleteTempFiles(directory string) error {
 	// A recording in progress consists of <name>.cptv.temp and the CPTV writer's scratch file <name>.cptv.temp.tmp.
 	// The constant recorder keeps its files in a sub-directory of the output directory.
 	for _, dir := range []string{directory, filepath.Join(directory, constantRecordingsDir)} {
-		matches, _ := filepath.Glob(filepath.Join(dir, "*."+cptvTempExt+"*"))
-		for _, filename := range matches {
-			if err := os.Remove(filename); err != nil {
+		// The directory is listed rather than globbed: its path may itself contain glob metacharacters.
+		d, err := os.Open(dir)
+		if err != nil {
+			continue
+		}
+		names, _ := d.Readdirnames(-1)
+		d.Close()
+		for _, name := range names {
+			if isTemp, _ := filepath.Match("*."+cptvTempExt+"*", name); !isTemp {
+				continue
+			}
+			if err := os.Remove(filepath.Join(dir, name)); err != nil {
 				return err
 			}
 		}
